@@ -247,6 +247,7 @@ def gen_sigs(repo=None):
     out.append(f'Definition get_method_1d : gm_shape := {g1}.')
     out.append(f'Definition get_method_2d : gm_shape := {g2}.')
     out += gen_setups(repo)
+    out += gen_method_uses(repo)
     return '\n'.join(out) + '\n'
 
 
@@ -410,6 +411,181 @@ def gen_setups(repo):
     out.append(f'Definition inner_shape_1d : in_shape := {inner_shape(c1)}.')
     out.append(f'Definition inner_shape_2d : in_shape := {inner_shape(c2)}.')
     return out
+
+
+# ---------------------------------------------------------------- method NAME arguments (case handling)
+RAW_CALL_WHITELIST = {'_setup_optimizer', '_get_function', '_get_method'}
+
+
+def _str_lits(node):
+    """string literals of a comparator: 'a' or a tuple/list/set of them; None if it is something else"""
+    if isinstance(node, ast.Constant) and isinstance(node.value, str):
+        return [node.value]
+    if isinstance(node, (ast.Tuple, ast.List, ast.Set)) and node.elts and all(
+            isinstance(e, ast.Constant) and isinstance(e.value, str) for e in node.elts):
+        return [e.value for e in node.elts]
+    return None
+
+
+def method_uses(fn, two_d, pname='method'):
+    """Ordered uses of the parameter `pname` in fn.  State: raw names (hold the caller's string), lowered names."""
+    raw, low = {pname}, set()
+    out = []
+
+    def kind_of(e):
+        if isinstance(e, ast.Name):
+            if e.id in low:
+                return 'low'
+            if e.id in raw:
+                return 'raw'
+            return None
+        if (isinstance(e, ast.Call) and isinstance(e.func, ast.Attribute) and e.func.attr == 'lower'
+                and not e.args and not e.keywords and isinstance(e.func.value, ast.Name)
+                and e.func.value.id in raw | low):
+            return 'lowercall'
+        return None
+
+    def emit(use, lits=()):
+        out.append(f'{{| mc_two_d := {"true" if two_d else "false"}; mc_func := {cstr(fn.name)}; mc_use := {use}; '
+                   f'mc_lits := [{"; ".join(cstr(l) for l in lits)}] |}}')
+
+    def scan_expr(node, in_raise=False):
+        """records the uses inside one expression / statement header; returns nothing"""
+        handled = set()
+        for n in ast.walk(node):
+            if isinstance(n, ast.Compare):
+                ops = [n.left] + list(n.comparators)
+                ks = [kind_of(o) for o in ops]
+                if any(ks):
+                    lits = []
+                    okform = True
+                    for o, k in zip(ops, ks):
+                        if k:
+                            handled.update(id(m) for m in ast.walk(o))
+                            continue
+                        ll = _str_lits(o)
+                        if ll is None:
+                            okform = False
+                        else:
+                            lits += ll
+                    if not okform or not all(isinstance(op, (ast.Eq, ast.NotEq, ast.In, ast.NotIn)) for op in n.ops):
+                        emit('UseOther', lits)
+                    else:
+                        k = [k for k in ks if k]
+                        emit('CmpRaw' if 'raw' in k else ('CmpLowerCall' if 'lowercall' in k else 'CmpLowered'), lits)
+            elif isinstance(n, ast.Call) and isinstance(n.func, ast.Name) and n.func.id in ('getattr', 'hasattr') \
+                    and len(n.args) >= 2 and kind_of(n.args[1]):
+                handled.update(id(m) for m in ast.walk(n.args[1]))
+                emit('GetattrRaw' if kind_of(n.args[1]) == 'raw' else 'GetattrLowered')
+            elif isinstance(n, ast.Call):
+                fname = n.func.attr if isinstance(n.func, ast.Attribute) else (n.func.id if isinstance(n.func, ast.Name) else None)
+                if fname in RAW_CALL_WHITELIST:
+                    for a in list(n.args) + [k.value for k in n.keywords]:
+                        if kind_of(a):
+                            handled.update(id(m) for m in ast.walk(a))
+                elif kind_of(n) == 'lowercall':
+                    pass          # <name>.lower() on its own: handled by whoever consumes it (assignment / comparison)
+        # any other load of a RAW name is an unknown use (a lowered name may be used freely)
+        for n in ast.walk(node):
+            if isinstance(n, ast.Name) and n.id in raw and isinstance(n.ctx, ast.Load) and id(n) not in handled:
+                # receiver of .lower() is fine
+                continue_ok = False
+                for c in ast.walk(node):
+                    if (isinstance(c, ast.Call) and isinstance(c.func, ast.Attribute) and c.func.attr == 'lower'
+                            and c.func.value is n and not c.args and not c.keywords):
+                        continue_ok = True
+                if continue_ok or in_raise:
+                    continue
+                emit('UseOther')
+
+    def assigns_tracked(st):
+        for n in ast.walk(st):
+            if isinstance(n, (ast.Assign, ast.AugAssign, ast.AnnAssign, ast.For, ast.With, ast.NamedExpr)):
+                tg = n.targets if isinstance(n, ast.Assign) else [getattr(n, 'target', None)]
+                if isinstance(n, ast.With):
+                    tg = [i.optional_vars for i in n.items]
+                for t in tg:
+                    if t is None:
+                        continue
+                    for m in ast.walk(t):
+                        if isinstance(m, ast.Name) and m.id in raw | low:
+                            return True
+        return False
+
+    def walk_body(stmts, top):
+        for st in stmts:
+            if isinstance(st, (ast.FunctionDef, ast.ClassDef, ast.Lambda)):
+                if any(isinstance(n, ast.Name) and n.id in raw for n in ast.walk(st)):
+                    emit('UseOther')
+                continue
+            if isinstance(st, ast.Assign) and len(st.targets) == 1 and isinstance(st.targets[0], ast.Name):
+                k = kind_of(st.value)
+                tname = st.targets[0].id
+                if k is not None and (top or tname not in raw | low):
+                    if not top and tname in raw | low:
+                        emit('UseOther')
+                    if k in ('low', 'lowercall'):
+                        raw.discard(tname)
+                        low.add(tname)
+                    else:
+                        low.discard(tname)
+                        raw.add(tname)
+                    continue
+                if tname in raw | low:
+                    if k is None and top:
+                        # rebound to something unrelated: no longer the method name
+                        scan_expr(st.value)
+                        raw.discard(tname)
+                        low.discard(tname)
+                        continue
+                    emit('UseOther')
+                    continue
+            if isinstance(st, (ast.If, ast.While)):
+                scan_expr(st.test)
+                if assigns_tracked(ast.Module(body=st.body + st.orelse, type_ignores=[])):
+                    emit('UseOther')       # conditional re-binding of a tracked name: not followed
+                walk_body(st.body, False)
+                walk_body(st.orelse, False)
+            elif isinstance(st, (ast.For,)):
+                scan_expr(st.iter)
+                if assigns_tracked(st):
+                    emit('UseOther')
+                walk_body(st.body, False)
+                walk_body(st.orelse, False)
+            elif isinstance(st, (ast.With, ast.Try)):
+                if assigns_tracked(st):
+                    emit('UseOther')
+                for sub in ('body', 'orelse', 'finalbody'):
+                    walk_body(getattr(st, sub, []) or [], False)
+                for h in getattr(st, 'handlers', []) or []:
+                    walk_body(h.body, False)
+                for it in getattr(st, 'items', []) or []:
+                    scan_expr(it.context_expr)
+            elif isinstance(st, ast.Raise):
+                scan_expr(st, in_raise=True)
+            else:
+                if assigns_tracked(st) and not isinstance(st, ast.Assign):
+                    emit('UseOther')
+                scan_expr(st)
+
+    walk_body(_body_wo_doc(fn), True)
+    return out
+
+
+def gen_method_uses(repo):
+    ents, funcs = [], []
+    for two_d, rel in ((False, 'pybaselines/optimizers.py'), (True, 'pybaselines/two_d/optimizers.py'),
+                       (False, 'pybaselines/_algorithm_setup.py'), (True, 'pybaselines/two_d/_algorithm_setup.py')):
+        tree, _ = _parse(rel, repo)
+        for cls in _classes(tree).values():
+            for name, fn in _methods(cls).items():
+                if 'method' in [a.arg for a in fn.args.args + fn.args.kwonlyargs]:
+                    funcs.append(f'({"true" if two_d else "false"}, {cstr(name)})')
+                    ents += method_uses(fn, two_d)
+    if not funcs:
+        raise TranslateError('no function with a `method` parameter found')
+    return ['Definition method_funcs : list (bool * string) := [' + '; '.join(funcs) + '].\n',
+            'Definition method_uses : list mcmp := [\n  ' + ';\n  '.join(ents) + '\n].\n']
 
 
 GENERATORS = {'GenSigs': gen_sigs}
